@@ -5,12 +5,15 @@ command exit 1, but it is never reported as a VIOLATION of a listed property.
 
 1. join-table lookup (rbql_csv.find_table_path): the id of the query text is tried as a path, then relative to the
    input file's directory, then as a key of ~/.rbql_table_names -- Frontends!ResolveTable, judged by TLC.
+4. the repository's own scenario file (test/rbql_unit_tests.json) run against the tree, recorded and judged by the TLA+ monitors (EngineTrace), plus
+   the scenarios' own expectations in both ports (the pinned suite never executes the tree).
 3. rbql-js file front-ends (rbql_csv.query_csv stream / bulk, node cli_rbql.js): the C13 cases in JavaScript syntax against Stringify / CliOk.
 2. user init code (engine): runs once after set_header and before the first get_record; functions it defines are
    visible to every clause; an exception in it is reported as such -- RbqlEngine (q.init, action RunInit).
 """
 import json
 import os
+import re
 import shutil
 import subprocess
 import sys
@@ -184,12 +187,154 @@ def js_frontends(run, label, queries, recsA, maxA, recsB='R_none', maxB=0, cli_e
     run.notes['js_cli_runs'] += len(clis)
 
 
+def _proj(v):
+    if isinstance(v, float):
+        v = round(v, 3)
+        return ['i', int(v)] if v == int(v) else ['f', v]
+    if isinstance(v, bool):
+        return ['b', v]
+    if isinstance(v, int):
+        return ['i', v]
+    if v is None:
+        return ['n']
+    if isinstance(v, str):
+        return ['s', [ord(c) for c in v]]
+    if isinstance(v, (list, tuple)):
+        return ['l', [_proj(x) for x in v]]
+    return ['?', str(v)]
+
+
+def _reproj(p):
+    if p[0] == 'f':
+        return _proj(float(p[1])) if p[1] is not None else ['f', None]
+    if p[0] == 'l':
+        return ['l', [_reproj(x) for x in p[1]]]
+    return p
+
+
+def _vary(query, rnd):
+    for i in reversed(range(10)):
+        for t in 'ab':
+            parts = query.split('%s%d' % (t, i))
+            query = parts[0] + ''.join((('%s%d' % (t, i)) if rnd.random() < 0.5 else ('%s[%d]' % (t, i))) + x for x in parts[1:])
+    return query
+
+
+def _scenario_chunk(items):
+    """The repository's own scenario file run against the TREE behind recording iterator / writer objects."""
+    import copy
+    import random
+    mods = impl.load()
+    rbql, eng, rcsv, cu = mods
+    RecIterator, RecWriter, Registry = engine.make_recorders(eng)
+    out = []
+    for tid, sc, variant in items:
+        query = sc.get('query_python') or sc.get('query_python_3')
+        if variant and sc.get('randomly_replace_var_names', True):
+            query = _vary(query, random.Random('%s/%d' % (sc['test_name'], variant)))
+        A = copy.deepcopy(sc['input_table'])
+        B = copy.deepcopy(sc.get('join_table'))
+        snapA, snapB = copy.deepcopy(A), copy.deepcopy(B)
+        events = []
+        it = RecIterator(A, sc.get('input_column_names'), events, 'a')
+        wr = RecWriter(events, 0, [(A, snapA)] + ([(B, snapB)] if B is not None else []))
+        reg = Registry(B, sc.get('join_column_names'), events) if B is not None else None
+        warnings = []
+        err = None
+        try:
+            eng.query(query, it, wr, warnings, reg, user_init_code=sc.get('python_init_code', ''))
+        except Exception as e:  # noqa
+            err = rbql.exception_to_error_info(e)
+        evs = [{'e': e['e'], 't': e.get('t', 'w'), 'end': bool(e.get('end', False)), 'ok': bool(e.get('ok', True))} for e in events]
+        errcls = {'query parsing': 'parsing', 'query execution': 'runtime', 'IO handling': 'io'}.get(err[0], err[0]) if err else ''
+        trace = {'tid': tid, 'outcome': 'error' if err else 'ok', 'errcls': errcls, 'events': evs, 'streaming': False, 'pulllimit': 0, 'alias': bool(wr.alias),
+                 'src_changed': bool(wr.src_changed or A != snapA or B != snapB)}
+        # the scenario's own oracle
+        exp_err = sc.get('expected_error') or sc.get('expected_error_py') or sc.get('expected_error_py_3')
+        problems = []
+        if (exp_err is not None) != (err is not None):
+            problems.append('outcome: expected error %r, got %r' % (exp_err, err))
+        elif exp_err is not None:
+            if (err[1] != exp_err) if sc.get('expected_error_exact') else (exp_err not in err[1]):
+                problems.append('error text: expected %r, got %r' % (exp_err, err[1]))
+        else:
+            if [[_proj(c) for c in r] for r in wr.rows] != [[_proj(c) for c in r] for r in sc['expected_output_table']]:
+                problems.append('output table: expected %r, got %r' % (sc['expected_output_table'][:4], wr.rows[:4]))
+            if (wr.header or []) != sc.get('expected_output_header', []):
+                problems.append('output header: expected %r, got %r' % (sc.get('expected_output_header', []), wr.header))
+            got_w = sorted('inconsistent input records' if 'Number of fields in "input" table is not consistent' in w else w for w in warnings)
+            if got_w != sorted(sc.get('expected_warnings', [])):
+                problems.append('warnings: expected %r, got %r' % (sc.get('expected_warnings', []), warnings))
+        out.append((tid, trace, problems, query))
+    return out
+
+
+def repo_scenarios(run):
+    """test/rbql_unit_tests.json (109 scenarios the pinned suite only ever runs against the installed copy) run against the tree:
+    (1) every execution recorded at the iterator / writer interface and judged by the TLA+ monitors (EngineTrace: writer protocol, finish iff ok,
+    no pull after a refusal, B read completely before A, nothing written after a parsing error, no aliasing, sources unchanged);
+    (2) the scenario's own expectation (table, header, warnings, error text), Python and JavaScript."""
+    from .. import node, par
+    path = os.path.join(impl.REPO, 'test', 'rbql_unit_tests.json')
+    with open(path) as f:
+        scenarios = json.load(f)
+    items = []
+    for sc in scenarios:
+        if not (sc.get('query_python') or sc.get('query_python_3')) or sc.get('normalize_column_names', True) is False:
+            continue
+        if float(sc.get('minimal_python_version', 2.7)) > 3.12:
+            continue
+        for variant in range(4):
+            items.append((len(items) + 1, sc, variant))
+    res = par.pmap(_scenario_chunk, items, chunk=8)
+    traces = []
+    for (tid, sc, variant), (_, trace, problems, query) in zip(items, res):
+        run.traces += 1
+        run.count(['scenario', sc['test_name'], variant], nontrivial=True)
+        traces.append(trace)
+        for p in problems:
+            run.violation({'impl': 'py', 'what': 'repository scenario fails on the tree', 'scenario': sc['test_name'], 'detail': p[:300], 'query': query}, {'kind': 'scenario', 'name': sc['test_name']})
+    ec.validate_engine_traces(run, traces, 'repository-scenarios')
+    run.sample({'repository_scenario_trace': {'scenario': items[7][1]['test_name'], 'events': [e['e'] + ':' + e['t'] for e in traces[7]['events']][:12]}})
+    # JavaScript
+    reqs, meta = [], []
+    for sc in scenarios:
+        if not sc.get('query_js'):
+            continue
+        reqs.append({'op': 'query_table', 'query': sc['query_js'], 'input': sc['input_table'], 'join': sc.get('join_table'), 'input_header': sc.get('input_column_names'), 'join_header': sc.get('join_column_names'),
+                     'user_init': sc.get('js_init_code', ''), 'normalize': sc.get('normalize_column_names', True)})
+        meta.append(sc)
+    for sc, r in zip(meta, node.run_batch(reqs, nproc=par.NPROC)):
+        run.traces += 1
+        run.count(['scenario-js', sc['test_name']], nontrivial=True)
+        exp_err = sc.get('expected_error') or sc.get('expected_error_js')
+        problems = []
+        got_err = r.get('error')
+        if (exp_err is not None) != (got_err is not None):
+            problems.append('outcome: expected error %r, got %r' % (exp_err, got_err))
+        elif exp_err is not None:
+            # newer V8 versions name the offending token (Unexpected identifier 'and'): the scenario texts predate that
+            got_err = dict(got_err, msg=re.sub(r"Unexpected identifier '\w+'", 'Unexpected identifier', got_err['msg']))
+            if (got_err['msg'] != exp_err) if sc.get('expected_error_exact') else (exp_err not in got_err['msg']):
+                problems.append('error text: expected %r, got %r' % (exp_err, got_err['msg']))
+        else:
+            if [[_reproj(c) for c in row] for row in r['out']] != [[_proj(c) for c in row] for row in sc['expected_output_table']]:
+                problems.append('output table: expected %r, got %r' % (sc['expected_output_table'][:4], r['out'][:4]))
+            if (r.get('header') or []) != sc.get('expected_output_header', []):
+                problems.append('output header: expected %r, got %r' % (sc.get('expected_output_header', []), r.get('header')))
+            if not r.get('src_intact', True):
+                problems.append('caller arrays modified')
+        for p in problems:
+            run.violation({'impl': 'js', 'what': 'repository scenario fails on the tree', 'scenario': sc['test_name'], 'detail': p[:300], 'query': sc['query_js']}, {'kind': 'scenario', 'name': sc['test_name']})
+
+
 def check(run):
     run.prop = 'EXT'
     run.rule = ('extensions of the specification beyond the listed properties: join-table lookup order (16 existence combinations x relative/absolute id, each in a fresh process with its own HOME and working directory); '
                 'rbql-js query_csv (stream, bulk) and node cli_rbql.js over the C13 cases; user init code (defining a function used in SELECT / WHERE / ORDER BY / UPDATE, or raising) over small tables')
     run.assumptions = ['not a listed property: mismatches are reported as EXTENSION-MISMATCH']
     table_lookup(run)
+    repo_scenarios(run)
     ec.run_family(run, 'EXT-user-init-code', 'Q_EXTinit', 'R_2x2', maxA=2, hdrmodes=(False, True))
     js_frontends(run, 'EXT-js-frontends', 'Q_C13', 'R_2x2p', 2)
     js_frontends(run, 'EXT-js-frontends-join', 'Q_C13join', 'R_2x2', 2, recsB='R_2x2', maxB=2, cli_every=40)
